@@ -295,6 +295,20 @@ IsNearestDecimal(d, nn, q) ==
            look == nn = <<>> \/ BnCmp(BnMul(BnSub(n2, BnOne), v.d), BnMulS(v.n, 2)) <= 0    \* 2n - 1 <= 2V
        IN hiok /\ look
 
+\* ---- neighbours (next double away from / towards zero, same sign) ------------------------------
+DNextMag(d) ==
+  CASE d.c = "zero" -> DFin(d.s, BnOne, DEMin)
+    [] d.c = "fin" -> LET m1 == BnAdd(d.m, BnOne)
+                      IN IF m1 = DP53 THEN (IF d.e + 1 > DEMax THEN DInf(d.s) ELSE DFin(d.s, DP52, d.e + 1)) ELSE DFin(d.s, m1, d.e)
+    [] OTHER -> d
+DPrevMag(d) ==
+  CASE d.c = "fin" -> IF d.m = BnOne /\ d.e = DEMin THEN DZero(d.s)
+                      ELSE IF d.m = DP52 /\ d.e > DEMin THEN DFin(d.s, BnSub(DP53, BnOne), d.e - 1)
+                      ELSE DFin(d.s, BnSub(d.m, BnOne), d.e)
+    [] d.c = "inf" -> DFin(d.s, BnSub(DP53, BnOne), DEMax)
+    [] OTHER -> d
+DPow2(k) == DRoundDy(0, BnOne, k, FALSE)                     \* 2^k, -1074 <= k <= 1023
+
 \* ---- integers ---------------------------------------------------------------------------------
 DIsInteger(d) == d.c = "zero" \/ (d.c = "fin" /\ (d.e >= 0 \/ BnLowBits(d.m, 0 - d.e) = <<>>))
 \* magnitude of trunc(d) as a BigNat (finite d)
